@@ -213,7 +213,7 @@ func runC12(c *core.Ctx) error {
 		}
 		done += k
 	}
-	return nil
+	return c12Typed(c, c.Rand.Fork(), c.Pick(3000, 200000))
 }
 
 func replayC12(c *core.Ctx, rp core.Replay) error {
@@ -235,4 +235,72 @@ func replayC12(c *core.Ctx, rp core.Replay) error {
 		want, _ = core.ParseTermString(outs[0][i+8:])
 	}
 	return c12Batch(c, []asmCase{{proto: f[1], ops: ops, want: want}}, c.Rand)
+}
+
+// c12Typed: the same call protocol over the typed builders of the reflection binding (type level), for types built from
+// typed maps, lists, structs and scalars: legal histories with the two pinned rejections injected.  The per-call contract
+// and "the result is exactly the accepted entries" are checked against the generator's expectations (the Lean assembler
+// model describes the generic builders; for typed builders the acceptance of values is C09's business).
+func c12Typed(c *core.Ctx, r *core.Rand, n int) error {
+	cfg := core.DefaultSchemaCfg
+	for i := 0; i < n; i++ {
+		t := core.GenPlainSchema(r, 0)
+		if t.K != "map" && t.K != "list" && t.K != "struct" {
+			continue
+		}
+		sc, err := newSchemaCase(t)
+		if err != nil {
+			return fmt.Errorf("c12 typed: %v (%s)", err, t.Tokens())
+		}
+		v := core.GenInhabitant(t, r, cfg, false)
+		input := core.TypeInput(v)
+		inject := i%4 != 0
+		ops := core.GenHistory(input, r, inject, true)
+		nb, err := sc.Eng.NewTypeBuilder(t.Name)
+		if err != nil {
+			return err
+		}
+		rr := r.Fork()
+		io, final := core.RunOps(nb, ops, func(x core.Val) (datamodel.Node, error) { return core.BuildBasic(x, rr) })
+		impl := strings.Join(io, " ") + " | " + final
+		line := "c12.typed " + sc.Eng.Name() + " " + t.Tokens() + " OPS " + core.OpsLine(ops)
+		injected := 0
+		for _, op := range ops {
+			if op.Expect != "ok" {
+				injected++
+			}
+		}
+		c.Count(line, injected > 0 || len(ops) >= 6)
+		c.Dist("proto:typed-" + t.K)
+		if i < 2 {
+			c.Sample(map[string]string{"case": line, "impl": impl})
+		}
+		bad := false
+		for j, op := range ops {
+			if j >= len(io) {
+				break
+			}
+			if io[j] == "panic" {
+				c.Fail("C12/panic-on-legal-history", core.Replay{Kind: "oracle", Case: line, Impl: impl, Detail: fmt.Sprintf("call %d (%s) panicked", j, op.Tokens())})
+				bad = true
+				break
+			}
+			okErr := op.Expect != "ok" && op.Expect != "e:repeatedKey" && strings.HasPrefix(io[j], "e:") // any error class reports an unacceptable kind
+			if op.Expect != "" && io[j] != op.Expect && !okErr {
+				sig := "C12/call-outcome"
+				if op.Expect == "e:repeatedKey" {
+					sig = "C12/repeated-key-not-rejected-at-call"
+				} else if op.Expect != "ok" {
+					sig = "C12/unacceptable-kind-not-reported"
+				}
+				c.Fail(sig, core.Replay{Kind: "oracle", Case: line, Impl: impl, Expected: fmt.Sprintf("call %d (%s) → %s", j, op.Tokens(), op.Expect)})
+				bad = true
+				break
+			}
+		}
+		if want := "built " + v.Term(); !bad && final != want {
+			c.Fail("C12/result-not-accepted-entries", core.Replay{Kind: "oracle", Case: line, Impl: impl, Expected: want})
+		}
+	}
+	return nil
 }
